@@ -38,17 +38,17 @@ def Schema.startSiteOk (S : Schema) : Nat → List Node → Bool
     decide (t < S.nodes.size) && (fillBeforeTypes S (S.dfa t) 0 (S.types kids) false).isSome && S.startSiteOk os kids
   | _ + 1, _ => true
 
+mutual
 /-- **end site**: every node of the open end spine (the first `oe` levels of the last-child chain) has children
     that are a matchable beginning of its content expression (`node.content_match_at(node.child_count)` does not
-    raise) -/
+    raise).  `endSiteNode` looks at one node as a last child, `endSiteOk` at the last node of a fragment. -/
+def Schema.endSiteNode (S : Schema) : Node → Nat → Bool
+  | .elem t _ _ kids, oe + 1 => ((S.dfa t).run 0 (S.types kids)).isSome && S.endSiteOk kids oe
+  | _, _ => true
 def Schema.endSiteOk (S : Schema) : List Node → Nat → Bool
   | [], _ => true
-  | [.elem t _ _ kids], oe =>
-    (match oe with
-     | 0 => true
-     | oe' + 1 => ((S.dfa t).run 0 (S.types kids)).isSome && S.endSiteOk kids oe')
-  | [_], _ => true
-  | _ :: n :: ns, oe => S.endSiteOk (n :: ns) oe
+  | n :: ns, oe => if ns.isEmpty then S.endSiteNode n oe else S.endSiteOk ns oe
+end
 
 /-- both sites, for the open depths of the slice as it stands -/
 def Slice.sitesOk (S : Schema) (u : Slice) : Bool :=
@@ -70,14 +70,17 @@ def Schema.fillableKids (S : Schema) : List Node → Bool
   | n :: ns => S.fillableNode n && S.fillableKids ns
 end
 
+mutual
 /-- along the whole last-child chain: every suffix of a node's children is a matchable beginning of the node's
     content expression.  (The open end reaches further down the last-child chain when `open_more` opens the only
     node left, and a node that is open on both sides loses children from the front.) -/
+def Schema.endChainNode (S : Schema) : Node → Bool
+  | .elem t _ _ kids => suffixAll (fun ts => ((S.dfa t).run 0 ts).isSome) (S.types kids) && S.endChainOk kids
+  | _ => true
 def Schema.endChainOk (S : Schema) : List Node → Bool
   | [] => true
-  | [.elem t _ _ kids] => suffixAll (fun ts => ((S.dfa t).run 0 ts).isSome) (S.types kids) && S.endChainOk kids
-  | [_] => true
-  | _ :: n :: ns => S.endChainOk (n :: ns)
+  | n :: ns => if ns.isEmpty then S.endChainNode n else S.endChainOk ns
+end
 
 /-- **the guard of `fit_no_raise`** on the request slice: `fillableKids` of its content (start site) and
     `endChainOk` of its content (end site).  Static: it does not mention the open depths — they change over the
@@ -138,9 +141,11 @@ def Schema.stableNode (S : Schema) : Node → Bool
   | .leaf .. => true
 def Schema.stableKids (S : Schema) : List Node → Bool
   | [] => true
-  | [n] => S.stableNode n
-  | a :: b :: rest =>
-    S.followsB (S.tyOf a) (S.tyOf b) && (a.isLeaf || !b.isLeaf) && S.stableNode a && S.stableKids (b :: rest)
+  | a :: rest =>
+    (match rest with
+     | [] => true
+     | b :: _ => S.followsB (S.tyOf a) (S.tyOf b) && (a.isLeaf || !b.isLeaf)) &&
+      S.stableNode a && S.stableKids rest
 end
 
 /-- **the static guard under which the unplaced slice stays well-formed** -/
